@@ -138,6 +138,8 @@ long  vf_cap_default(int which);
 long  vf_cap_calls(void);
 long  vf_events_count(int kind);
 long  vf_layout_checks(void);
+/* records a violation of the storage properties (reported at the end of the case for the modules C06/C07/C08/C19) */
+void  vf_sticky_storage_viol(const char *key, const char *fmt, ...) __attribute__((format(printf, 2, 3)));
 long  vf_growth_ws(void);                   /* monotonic per thread: ?expand calls completed inside a caller workspace (guarded hook 4) */
 long  vf_growth_sys(void);                  /* monotonic per thread: allocations made by ?expand under library allocation */               /* evaluations of the workspace-layout invariant (guarded hook 5) in this case */
 int   vf_zero_pivot_without_candidate(void);   /* a zero pivot was reported for a column that had no candidate row at all (F6) */
